@@ -157,6 +157,14 @@ def mask_sites(fn):
         cj = _conjuncts(n)
         if not cj or len(cj) != 2:
             continue
+        # a conjunct given through a single-assignment local (`above = x >= lo`) is looked through
+        sdefs = _single_defs(fn)
+        cj = list(cj)
+        for i_ in range(2):
+            hops = 0
+            while isinstance(cj[i_], ast.Name) and cj[i_].id in sdefs and hops < 4:
+                cj[i_] = sdefs[cj[i_].id]
+                hops += 1
         c1, c2 = _as_cmp(cj[0]), _as_cmp(cj[1])
         if not (c1 and c2):
             continue
@@ -1088,15 +1096,33 @@ def check_hist_algebra(repo, chk):
         if count is None or error is None:
             raise AnalysisError("%s: count/error of the combined histogram not found" % key)
         chk.instance("S4", "%s count=`%s` error=`%s`" % (key, norm_text(count), norm_text(error)))
-        got = _attr_pair(count, "count", a, b)
-        if got != op:
+        # decided on the canonical algebraic form (helper functions of the module are inlined),
+        # with a syntactic fallback when the expression is not a single-path kernel
+        import sympy as _sp
+
+        from ..sym import Translator as _Tr
+        from ..sym import Unmodelled as _Un
+        from ..sym import equal as _eq
+
+        ca, cb, ea, eb = _sp.symbols("count_a count_b", real=True) + _sp.symbols("err_a err_b", positive=True)
+        env = {a: {"count": ca, "error": ea, "binning": _sp.Symbol("bins")}, b: {"count": cb, "error": eb, "binning": _sp.Symbol("bins")}}
+        try:
+            tr = _Tr(repo)
+            cv = _sp.sympify(tr.eval(count, dict(env), fn.mod, 0))
+            evv = _sp.sympify(tr.eval(error, dict(env), fn.mod, 0))
+            want_c = ca + cb if op == "+" else ca - cb
+            ok_c = bool(_eq(cv, want_c)[0])
+            ok_e = bool(_eq(evv ** 2, ea ** 2 + eb ** 2)[0]) and evv.is_nonnegative is not False
+        except _Un:
+            ok_c = _attr_pair(count, "count", a, b) == op
+            inner = sqrt_arg(error)
+            ok_e = False
+            if inner is not None and isinstance(inner, ast.BinOp) and isinstance(inner.op, ast.Add):
+                bases = {square_base(inner.left), square_base(inner.right)}
+                ok_e = bases == {"%s.error" % a, "%s.error" % b}
+        if not ok_c:
             chk.violation("S4", key, "count", "combined count `%s` is not %s.count %s %s.count" % (norm_text(count), a, op, b), file=HIST, line=node.lineno)
-        inner = sqrt_arg(error)
-        ok = False
-        if inner is not None and isinstance(inner, ast.BinOp) and isinstance(inner.op, ast.Add):
-            bases = {square_base(inner.left), square_base(inner.right)}
-            ok = bases == {"%s.error" % a, "%s.error" % b}
-        if not ok:
+        if not ok_e:
             chk.violation(
                 "S4", key, "error",
                 "combined error `%s` is not sqrt(%s.error**2 + %s.error**2): the sum of squared weights is additive for sums and differences"
